@@ -200,6 +200,9 @@ impl Prop for C14 {
         if squeezed.contains("match ") {
             tags.push("has_match".into());
         }
+        if squeezed.replace("/* c */", "").replace(' ', "").contains(",)") {
+            tags.push("has_one_element_tuple".into());
+        }
         if squeezed.contains("let {") {
             tags.push("has_record_pattern".into());
         }
